@@ -22,6 +22,27 @@ pub(crate) fn find_tld_or_enum_value_by_name(
                 return Some(value);
             }
         }
+        // The governing type may be a reference to the type that defines the identifier:
+        // follow the chain of type references before looking anywhere else
+        let mut governing = type_name;
+        let mut hops = 0;
+        while let Some(ToplevelDefinition::Type(ToplevelTypeDefinition {
+            ty: ASN1Type::ElsewhereDeclaredType(referenced),
+            ..
+        })) = tlds.get(governing)
+        {
+            governing = &referenced.identifier;
+            hops += 1;
+            if hops > tlds.len() {
+                break;
+            }
+            if let Some(value) = tlds
+                .get(governing)
+                .and_then(|tld| tld.get_distinguished_or_enum_value(Some(governing), name))
+            {
+                return Some(value);
+            }
+        }
         // Make second attempt without requiring a matching type name
         // This is the current best shot at linking inner subtypes
         for (_, tld) in tlds.iter() {
